@@ -44,6 +44,9 @@ def run(ctx: Ctx) -> None:
     whole_duration_rule(ctx, "R-C05-ROUND")
     compare(ctx, "R-C05-CMP")
     poll(ctx, "R-C05-POLL")
+    from .C06 import first_run
+
+    first_run(ctx, "R-C05-CMP")  # a due time that has already passed is not handed out again as "next execution time" (the successor would run at once, not a period later)
 
 
 # ----------------------------------------------------------------------------- helpers
